@@ -38,7 +38,7 @@ type desc struct {
 	Cap  int    `json:"cap"`
 	Max  int    `json:"max"`
 	// replay
-	IdleK int  `json:"idlek,omitempty"` // MaxIdleWorkerDuration = IdleK minutes + 30s; 0 = unset (default 10s, unit 4s)
+	IdleK int  `json:"idlek,omitempty"` // MaxIdleWorkerDuration = IdleK minutes + 30s; 0 = unset (default 10s, unit 3.2s)
 	Ops   []op `json:"ops,omitempty"`
 	// stress
 	NConn     int   `json:"nconn,omitempty"`
@@ -87,8 +87,10 @@ func (r *connRec) coq() string {
 		hlib.Z(int64(r.conn.closes.Load())), hlib.Z(int64(r.stClosed.Load())), hlib.Z(int64(r.stHij.Load())), hlib.Bool(r.hij))
 }
 
+var waitLimit = 3 * time.Second
+
 func waitFor(f func() bool) bool {
-	deadline := time.Now().Add(5 * time.Second)
+	deadline := time.Now().Add(waitLimit)
 	for i := 0; ; i++ {
 		if f() {
 			return true
@@ -151,6 +153,9 @@ func (rp *replayer) emit(labels []string, overdue []int) {
 	}
 	for _, l := range labels {
 		rp.kinds[strings.Fields(l)[0]]++
+		if strings.HasPrefix(l, "WorkerRelease ") && strings.HasSuffix(l, " false") {
+			rp.kinds["(release-after-stop)"]++
+		}
 	}
 	rp.blocks = append(rp.blocks, fmt.Sprintf("(Blk %s %s %s)", hlib.List(labels), o, hlib.List(od)))
 }
@@ -207,7 +212,7 @@ func (rp *replayer) send(k int) {
 		if id != r.id {
 			rp.stuck = true
 		}
-	case <-time.After(5 * time.Second):
+	case <-time.After(waitLimit):
 		rp.stuck = true
 	}
 	rp.busy = append(rp.busy, r)
@@ -231,7 +236,7 @@ func (rp *replayer) finishOp(k, res int) {
 		if id != r.id {
 			rp.stuck = true
 		}
-	case <-time.After(5 * time.Second):
+	case <-time.After(waitLimit):
 		rp.stuck = true
 	}
 	rp.post = append(rp.post, r)
@@ -271,17 +276,31 @@ func (rp *replayer) swapOp(k, units int) {
 	if len(rp.post) < 2 || rp.stopped {
 		return
 	}
-	k %= len(rp.post) - 1
-	r1, r2 := rp.post[k], rp.post[k+1]
-	rp.post = append(rp.post[:k], rp.post[k+2:]...)
+	cnt := 2
+	if len(rp.post) >= 3 && k%2 == 1 {
+		cnt = 3 // two early stampers behind one late stamper: the shape on which the binary search retires early
+	}
+	k %= len(rp.post) - cnt + 1
+	early := append([]*connRec(nil), rp.post[k:k+cnt-1]...)
+	late := rp.post[k+cnt-1]
+	rp.post = append(rp.post[:k], rp.post[k+cnt:]...)
 	d := int64(units) * rp.unit
-	l2 := rp.doRelease(r2)
-	l1 := rp.doRelease(r1)
+	var labels, rel []string
+	for _, r := range early {
+		labels = append(labels, "WorkerStamp "+n(r.w))
+	}
+	ll := rp.doRelease(late)
+	for _, r := range early {
+		rel = append(rel, rp.doRelease(r)[1])
+	}
 	rp.now += d
-	rp.enq[r1.w] = rp.now
-	rp.enq[r2.w] = rp.now
-	rp.v.AgeReady(-1, time.Duration(d), r2.ch)
-	labels := []string{l1[0], fmt.Sprintf("Tick %s", hlib.Z(d)), l2[0], l2[1], l1[1]}
+	rp.enq[late.w] = rp.now
+	for _, r := range early {
+		rp.enq[r.w] = rp.now
+	}
+	rp.v.AgeReady(-1, time.Duration(d), late.ch)
+	labels = append(labels, fmt.Sprintf("Tick %s", hlib.Z(d)), ll[0], ll[1])
+	labels = append(labels, rel...)
 	rp.emit(labels, nil)
 }
 
@@ -308,6 +327,12 @@ func (rp *replayer) cleanOp(order int) {
 		rp.stuck = true
 	}
 	labels := []string{"CleanBegin", "CleanCollect " + hlib.Z(int64(k))}
+	if k > len(overdue) {
+		rp.kinds["(early-retire)"]++
+	}
+	if k > 0 && k < len(before) {
+		rp.kinds["(partial-clean)"]++
+	}
 	if k > 0 {
 		if rp.d.Cap == 0 || order%2 == 0 {
 			for _, ch := range before[:k] {
@@ -359,7 +384,7 @@ func runReplay(d desc) hlib.Case {
 		rp.unit = int64(time.Minute)
 		maxIdle = time.Duration(d.IdleK)*time.Minute + 30*time.Second
 	} else {
-		rp.unit = int64(4 * time.Second)
+		rp.unit = int64(3200 * time.Millisecond) // ages 9.6s and 12.8s bracket the 10s default
 	}
 	wf := func(c net.Conn) error {
 		r := rp.rec(c)
@@ -429,7 +454,8 @@ func runReplay(d desc) hlib.Case {
 	c := hlib.Case{Kind: fmt.Sprintf("replay-cap%d", d.Cap), Size: len(rp.blocks)}
 	if rp.stuck {
 		c.Kind = "replay-stuck"
-		rp.blocks = append(rp.blocks, "(Blk [Stop; Stop] (mkObs [] (-1)%Z false) [])") // a harness step timed out: report as mismatch
+		o, _, _ := rp.obs() // a step never completed: no model trace corresponds (Stop twice is never enabled); the property is judged on the real final state
+		rp.blocks = append(rp.blocks, fmt.Sprintf("(Blk [Stop; Stop] %s [])", o))
 	}
 	c.Coq = fmt.Sprintf("(CReplay (mkCfg %s %s %s) %s %s)", hlib.Z(int64(d.Cap)), hlib.Z(int64(d.Max)), hlib.Z(maxIdleModel),
 		hlib.List(rp.blocks), hlib.List(crs))
@@ -617,6 +643,8 @@ func corpus() []desc {
 		"g g s0 s0 f0 f0 w0:0 t1 c t1 c t1 c",                  // unsorted ready list then clean passes
 		"g g g s0 s0 s0 f0 f0 f0 w0:2 r0 t1 c t1 c t1 c t1 c",  // unsorted, three entries
 		"g g s0 s0 f0 f0 w0:3 c g g",                           // newest entry stale, older not
+		"g g g s0 s0 s0 f0 f0 f0 w1:1 t1 c t1 c t1 c",          // [late, early, early]: the late stamper is retired early
+		"g g g s0 s0 s0 f0 f0 f0 w1:2 t1 c t1 c t1 c",
 		"x g s0 f0:3 r0 c",                                     // Stop first
 		"g s0 f0:2 r0 t2 c t1 c x c",                           // error results, clean after Stop
 		"g g s0 f0 r0 t4 s0 c f0 r0 c",                         // clean while a conn is being served
@@ -648,7 +676,7 @@ func gen(r *rand.Rand, i int) desc {
 		"tick", "tick", "clean", "clean", "swap"}
 	for j := 0; j < nops; j++ {
 		k := kinds[r.Intn(len(kinds))]
-		if r.Intn(60) == 0 {
+		if r.Intn(150) == 0 {
 			k = "stop"
 		}
 		d.Ops = append(d.Ops, op{K: k, A: r.Intn(4), B: r.Intn(4)})
